@@ -845,16 +845,18 @@ class Atoms(list):
             return True
 
         tol = np.abs(1.0 - np.cos(angle_tol.to("rad")))
+        coords = np.array([atom.coord for atom in self], dtype=float)
 
-        vec0 = self.nvector(0, 1)  # Normalised first vector
-
-        for atom in self[2:]:
-            vec = atom.coord - self[0].coord
-            cos_theta = np.dot(vec, vec0) / np.linalg.norm(vec)
+        # Measure the angles at every atom, between every pair of the others,
+        # so the result does not depend on the order of the atoms
+        for i in range(len(self)):
+            vecs = np.delete(coords, i, axis=0) - coords[i]
+            vecs /= np.linalg.norm(vecs, axis=1)[:, np.newaxis]
+            cos_thetas = np.matmul(vecs, vecs.T)
 
             # Both e.g. <179° and >1° should satisfy this condition for
             # angle_tol = 1°
-            if np.abs(np.abs(cos_theta) - 1) > tol:
+            if np.any(np.abs(np.abs(cos_thetas) - 1) > tol):
                 return False
 
         return True
